@@ -303,12 +303,13 @@ static Verdict c04_history(const Case& c) {
   H->run(c.r.data(), ops.data(), args.data(), nops, 0, a1.data(), st.data());
   H->run(c.r.data(), ops.data(), args.data(), nops, 1, a2.data(), st2.data());
   LD model[9]; for (int j = 0; j < n; j++) model[j] = round_to(nt, c.r[(size_t)j]);
-  static const char* on[] = {"+= q", "-= q", "*= n", "/= n"};
-  bool add = false, mul = false;
+  static const char* on[] = {"+= q", "-= q", "*= n", "/= n", "x += x", "x -= x", "x = x", "x = std::move(copy of x)"};
+  bool add = false, mul = false, self = false;
   for (int k = 0; k < nops; k++) {
     const int op = ops[(size_t)k];
-    for (int j = 0; j < n; j++) model[j] = ieee(nt, op, model[j], op <= 1 ? st[(size_t)k * 9 + (size_t)j] : st[(size_t)k * 9]);
-    if (op <= 1) add = true; else mul = true;
+    if (op >= 4) { self = true; for (int j = 0; j < n; j++) { if (op == 4) model[j] = ieee(nt, 0, model[j], model[j]); else if (op == 5) model[j] = ieee(nt, 1, model[j], model[j]); } }
+    else for (int j = 0; j < n; j++) model[j] = ieee(nt, op, model[j], op <= 1 ? st[(size_t)k * 9 + (size_t)j] : st[(size_t)k * 9]);
+    if (op <= 1) add = true; else if (op <= 3) mul = true;
     for (int j = 0; j < n; j++) {
       const LD got = a1[(size_t)k * (size_t)n + (size_t)j], pure = a2[(size_t)k * (size_t)n + (size_t)j];
       if (!same_bits(nt, got, model[j]) && !(std::isnan(got) && std::isnan(model[j])))
@@ -317,13 +318,14 @@ static Verdict c04_history(const Case& c) {
         return Verdict::fail(fmt("%s<%s>: after step %d (%s) the compound assignments hold %s in component %d, the chain of pure operators x = x op y holds %s", H->name, ntinfo(nt).name, k, on[op], hexld(got).c_str(), j, hexld(pure).c_str()));
     }
   }
-  Verdict V; V.cls = std::string(ntinfo(nt).name) + ";len" + std::to_string(nops <= 4 ? nops : nops <= 12 ? 8 : 24); V.nontrivial = add && mul; return V;
+  Verdict V; V.cls = std::string(ntinfo(nt).name) + ";len" + std::to_string(nops <= 4 ? nops : nops <= 12 ? 8 : 24) + (self ? ";with-self-operand" : ""); V.nontrivial = add && mul; return V;
 }
 static rc::Gen<Case> gen_c04_history(int inst) {
   const Ref rf = g_cmpall[(size_t)inst]; const int nt = rf.nt; const int w = nt == 0 ? 6 : 20;
   return rc::gen::mapcat(irange(1, 24), [=](int nops) {
-    return rc::gen::map(rc::gen::tuple(rc::gen::container<std::vector<int>>((size_t)nops, irange(0, 3)), gen_reals(9 + 9 * nops, nt, -w, w, kNeg)),
-                        [=](const std::tuple<std::vector<int>, std::vector<LD>>& t) { Case c; c.i = {nt, rf.idx, nops}; for (int x : std::get<0>(t)) c.i.push_back(x); c.r = std::get<1>(t); return c; });
+    // 0..3 with weight 3 each, the four self-operand steps with weight 1 each
+    return rc::gen::map(rc::gen::tuple(rc::gen::container<std::vector<int>>((size_t)nops, irange(0, 15)), gen_reals(9 + 9 * nops, nt, -w, w, kNeg)),
+                        [=](const std::tuple<std::vector<int>, std::vector<LD>>& t) { Case c; c.i = {nt, rf.idx, nops}; for (int x : std::get<0>(t)) c.i.push_back(x < 12 ? x / 3 : x - 8); c.r = std::get<1>(t); return c; });
   });
 }
 static std::vector<Ref> g_stdall;
@@ -878,7 +880,7 @@ int main(int argc, char** argv) {
   {
     Sub s; s.name = "c04.history"; s.property = "C04"; s.instances = (int)g_cmpall.size(); s.n_quick = 300; s.n_thorough = 6000; s.gen = gen_c04_history; s.run = c04_history;
     s.instance_name = [](int inst) { return std::string(g_cmp[g_cmpall[(size_t)inst].nt][(size_t)g_cmpall[(size_t)inst].idx]->name) + "/" + ntinfo(g_cmpall[(size_t)inst].nt).name; };
-    s.rule = "histories of 1..24 compound assignments (+= q, -= q, *= n, /= n, any interleaving) on every quantity type that has all four: compared after every step, bit for bit, with a plain array updated by the IEEE operator and "
+    s.rule = "histories of 1..24 compound assignments (+= q, -= q, *= n, /= n, and with the object as its own operand: x += x, x -= x, self copy-assignment, move-assignment from a copy; any interleaving) on every quantity type that has all four: compared after every step, bit for bit, with a plain array updated by the IEEE operator and "
              "with the chain of pure operators x = x op y; non-trivial: at least one additive and one multiplicative step";
     subs.push_back(s);
   }
